@@ -9,6 +9,8 @@ contract, validated on recorded disk traces by the crash harness (C01) — liste
 C18 until the kvs crash run exists.
 -/
 import GoNfsd.Model.Kvs
+import GoNfsd.Lemmas.ObjLog
+import GoNfsd.Gen.Skeleton
 
 namespace GoNfsd.Props.C18
 open GoNfsd.Model.Kvs GoNfsd.Gen.Consts
@@ -120,5 +122,23 @@ theorem range_guard (k : KVS α) (key : Nat) (v : α) :
 /-- Non-vacuity. -/
 example : (runPuts ({ sz := 10000, store := fun _ => (0:Nat) } : KVS Nat)
     [[(600, 1), (601, 2)], [(600, 3), (9, 9)], [(601, 5)]]).store 600 = 1 := by decide
+
+/-! ### durability (model M9c of `obj.Log`): a put is acknowledged by a stable commit of its own -/
+
+/-- `MultiPut` ends with `CommitWait(true)`, which flushes up to the position of ITS OWN transaction:
+    whatever other callers committed, whatever the journal refused (a put of more pairs than the log
+    holds) and whatever position `obj.Log` remembers, an acknowledged put — and everything appended
+    before it — is durable, and stays so. -/
+theorem acknowledged_put_is_durable_whatever_was_refused (es es' : List GoNfsd.Model.ObjLog.Ev) :
+    let t := GoNfsd.Model.ObjLog.step (GoNfsd.Model.ObjLog.run {} es) (.commit true true)
+    t.durable = t.next ∧ t.next ≤ (GoNfsd.Model.ObjLog.run t es').durable := by
+  have hi : GoNfsd.Model.ObjLog.Inv (GoNfsd.Model.ObjLog.run {} es) :=
+    GoNfsd.Model.ObjLog.run_inv es {} ⟨Nat.le_refl _, Nat.le_refl _⟩
+  have h1 := GoNfsd.Model.ObjLog.stable_commit_all_durable _ hi
+  exact ⟨h1, by rw [← h1]; exact GoNfsd.Model.ObjLog.run_durable_mono es' _⟩
+
+/-- ... and no function of /repo (the KVS included) calls the shared `Flush()`, which would depend
+    on the remembered position (the seeded change C18h makes `MultiPut` do so). Regenerated. -/
+theorem kvs_does_not_rely_on_the_remembered_position : GoNfsd.Gen.Skeleton.flushCallers = [] := by decide
 
 end GoNfsd.Props.C18
